@@ -61,6 +61,7 @@ inductive Obs
   | enterCbs (s m : Nat) (snap : List (Option Nat))   -- `State.enter` reached: the on_enter callbacks run
   | exitCbs (s m : Nat) (snap : List (Option Nat))    -- `State.exit` reached: the on_exit callbacks run
   | exitAbort (s m : Nat) (snap : List (Option Nat))  -- … and one of them raised: the exit (and the transition) is aborted
+  | enterAbort (s m : Nat) (snap : List (Option Nat)) -- one of the on_enter callbacks raised (after `enterCbs`: they were reached)
   | failure (s m : Nat) (snap : List (Option Nat))    -- Retry invoked `on_failure`
   | raised (s m : Nat)                                  -- Error raised MachineError
   | created (id : Nat)                                  -- Volatile instantiated `volatile_cls()`
@@ -124,24 +125,35 @@ before `set_state`: the model remains in the state, with its object. -/
 def exitFailOp (c : Cfg) (s m : Nat) (st : FS) : FS :=
   st.push (.exitAbort s m (snap c m st))
 
+/-- `CustomState.enter(event_data)` when an on_enter callback raises.  The callbacks are the *last* thing the
+chain does: `Retry.enter` has already counted the attempt (`retry_counts.update` comes before
+`super().enter`), `Volatile.enter` has already bound its object; the exception only ends the trigger. -/
+def enterFailOp (c : Cfg) (s m src : Nat) (st : FS) : FS × Outcome :=
+  let r := enterOp c s m src st
+  if r.2 = .entered then (r.1.push (.enterAbort s m (snap c m r.1)), .aborted) else r
+
 inductive Op
   | enter (s m src : Nat)
+  | enterFail (s m src : Nat)   -- an entry whose on_enter callbacks raise
   | exit (s m : Nat)
   | exitFail (s m : Nat)        -- an exit whose callbacks raise
   deriving DecidableEq, Repr
 
 def Op.model : Op → Nat
   | .enter _ m _ => m
+  | .enterFail _ m _ => m
   | .exit _ m => m
   | .exitFail _ m => m
 
 def Op.state : Op → Nat
   | .enter s _ _ => s
+  | .enterFail s _ _ => s
   | .exit s _ => s
   | .exitFail s _ => s
 
 def step (c : Cfg) : Op → FS → FS × Outcome
   | .enter s m src, st => enterOp c s m src st
+  | .enterFail s m src, st => enterFailOp c s m src st
   | .exit s m, st => (exitOp c s m st, .entered)
   | .exitFail s m, st => (exitFailOp c s m st, .aborted)
 
@@ -183,14 +195,14 @@ structure MS where
   cur : Nat → Nat              -- model → state
 
 inductive TRes
-  | ok | ignored | invalid | errorState | vetoed
+  | ok | ignored | invalid | errorState | vetoed | enterVetoed
   deriving DecidableEq, Repr
 
 def TRes.code : TRes → Nat
-  | .ok => 0 | .ignored => 1 | .invalid => 2 | .errorState => 3 | .vetoed => 4
+  | .ok => 0 | .ignored => 1 | .invalid => 2 | .errorState => 3 | .vetoed => 4 | .enterVetoed => 5
 
 /-- `veto`: an on_exit callback of the source state raises during this trigger -/
-def trigger (F : Flat) (m ev : Nat) (ms : MS) (veto : Bool := false) : MS × TRes :=
+def trigger (F : Flat) (m ev : Nat) (ms : MS) (veto : Bool := false) (eveto : Bool := false) : MS × TRes :=
   match F.trans.find? (fun t => t.ev = ev ∧ t.src = ms.cur m) with
   | none => (ms, if F.ignoreInvalid then .ignored else .invalid)
   | some t =>
@@ -199,9 +211,9 @@ def trigger (F : Flat) (m ev : Nat) (ms : MS) (veto : Bool := false) : MS × TRe
     | some d =>
       if veto then ({ ms with fs := exitFailOp F.cfg t.src m ms.fs }, .vetoed) else
       let fs1 := exitOp F.cfg t.src m ms.fs
-      let r := enterOp F.cfg d m t.src fs1
+      let r := if eveto then enterFailOp F.cfg d m t.src fs1 else enterOp F.cfg d m t.src fs1
       ({ fs := r.1, cur := fun x => if x = m then d else ms.cur x },
-        if r.2 = .raised then .errorState else .ok)
+        if r.2 = .raised then .errorState else if r.2 = .aborted then .enterVetoed else .ok)
 
 /-- `model.may_<ev>()` / `may_trigger(ev)` (`Machine._can_trigger`, no conditions): is there a transition of
 `ev` from the model's state?  A query: it returns a value and has no state to change — in particular the
@@ -243,6 +255,7 @@ def customMethods (feats : List Mixin) (base : List Nat) : List Nat :=
 /-- an observation without object identities: (kind, state, model, hooks present?) -/
 inductive ObsE
   | enterCbs (s m : Nat) | exitCbs (s m : Nat) | failure (s m : Nat) | raised (s m : Nat) | exitAbort (s m : Nat)
+  | enterAbort (s m : Nat)
   deriving DecidableEq, Repr
 
 /-- what a plain machine's recorders see of an observation (`created` is invisible) -/
@@ -250,12 +263,14 @@ def Obs.plain : Obs → Option ObsE
   | .enterCbs s m _ => some (.enterCbs s m)
   | .exitCbs s m _ => some (.exitCbs s m)
   | .exitAbort s m _ => some (.exitAbort s m)
+  | .enterAbort s m _ => some (.enterAbort s m)
   | .failure s m _ => some (.failure s m)
   | .raised s m => some (.raised s m)
   | .created _ => none
 
 def ObsE.model : ObsE → Nat
   | .enterCbs _ m => m | .exitCbs _ m => m | .failure _ m => m | .raised _ m => m | .exitAbort _ m => m
+  | .enterAbort _ m => m
 
 def plainLog (l : List Obs) : List ObsE := l.filterMap Obs.plain
 
@@ -273,11 +288,13 @@ namespace Feat
 /-- `o` is a re-entry of `s` by model `m` from `s` itself (`transition.source == self.name`) -/
 def isSelf (s m : Nat) : Op → Bool
   | .enter s' m' src => decide (s' = s ∧ m' = m ∧ src = s)
+  | .enterFail s' m' src => decide (s' = s ∧ m' = m ∧ src = s)   -- an attempt whose enter callback raised is an attempt
   | _ => false
 
 /-- `o` is an entry of `s` by model `m` from another state -/
 def isForeign (s m : Nat) : Op → Bool
   | .enter s' m' src => decide (s' = s ∧ m' = m ∧ src ≠ s)
+  | .enterFail s' m' src => decide (s' = s ∧ m' = m ∧ src ≠ s)
   | _ => false
 
 /-- `state.tags = l` / in-place edits of the public `tags` list of a built state (`l` = the list afterwards) -/
